@@ -16,7 +16,7 @@ LEVEL_TEXT = (
     'necessary conditions; termination and schedule independence as theorems are NOT decided.')
 
 FLOORS = {'C05-R1': 6, 'C05-R2': 5, 'C05-R3': 1, 'C05-R4': 2, 'C05-R5': 2, 'C05-R6': 4,
-          'C05-R7': 4, 'C05-R8': 3, 'C05-R9': 1, 'C05-R10': 2, 'C05-R11': 3, 'C01-R7': 5, 'C01-R10': 4}
+          'C05-R7': 4, 'C05-R8': 3, 'C05-R9': 1, 'C05-R10': 2, 'C05-R11': 3, 'C12-R6': 4, 'C01-R7': 5, 'C01-R10': 4}
 
 BLOCKING = ('thread::sleep', 'JoinHandle::join', 'Receiver::recv', 'Receiver::recv_timeout',
             'Thread::park', 'thread::park', 'Condvar::wait', 'Condvar::wait_for', 'Condvar::wait_until',
@@ -436,6 +436,24 @@ def r9_empty_batch_is_shutdown_signal(ctx, F, rule='C05-R9'):
                 if isinstance(o, (str, tuple)) or not o.is_('VecDeque::split_off') or len(o.args) != 2:
                     continue
                 at = noref(sp.val(o.args[1]))
+                if at.kind == 'local' and not at.projs:
+                    # a running cut-off: `remaining -= size; jobs.split_off(remaining)` - the queue is `size`
+                    # longer than the cut-off whenever the previous cut-off was its length; what is decided here
+                    # is the necessary part: the cut-off was just lowered by `size`, and size != 0
+                    subs = []
+                    for d in sp.defs.get(at.key, []):
+                        if d[1] == 'call' or d[2]['lhs']['p'] or d[2]['rv']['k'] != 'use':
+                            continue
+                        dv = noref(sp.val(d[2]['rv']['op']))
+                        if dv.kind == 'bin' and dv.key[0] in ('Sub', 'SubWithOverflow', 'SubUnchecked') and \
+                                noref(dv.key[1]) == at and sp.dominates(d[0], o.bb) and sp.in_cycle(d[0]):
+                            subs.append(noref(dv.key[2]))
+                    if len(subs) == 1:
+                        size = subs[0]
+                        nz = edges_where(sp, lambda v: noref(v) == size, lambda v: v.kind == 'const' and v.key == 0, 'ne')
+                        if nz and sp.edges_dominate(nz, pc.bb) and len(bo) == 1:
+                            ok = True
+                    continue
                 if at.kind != 'bin' or at.key[0] not in ('Sub', 'SubWithOverflow', 'SubUnchecked'):
                     continue
                 ln, size = noref(at.key[1]), noref(at.key[2])
@@ -568,6 +586,11 @@ def run(ctx):
                        'workers wait in a blocking recv')
     with ctx.rule('C05-R11', 'on_demand'):
         r11_control_messages_lossless(ctx, F)
+    # "when any worker stops (timeout, panic) all the others stop too": a busy worker has to look at the shutdown
+    # state on every lap, not only when it runs out of work
+    import c12
+    ctx.doc('C12-R6', 'no cycle through check_block avoids every observer of the shutdown state')
+    c12.r6_shutdown_observed(ctx, F)
     # "no pending unit of work is dropped": the frontier-conservation rules of C01
     import c01
     import c19
